@@ -10,6 +10,10 @@ Open Scope N_scope.
 Theorem C05_dec_correct : forall E a b, sub_dec E a b = true <-> Sub E a b.
 Proof. exact sub_dec_correct. Qed.
 
+(* the faster procedure used inside the decoder model (reachable pairs only) decides the same relation *)
+Theorem C05_dec_fast_correct : forall E a b, sub_dec_fast E a b = true <-> Sub E a b.
+Proof. exact sub_dec_fast_correct. Qed.
+
 Theorem C05_eq_dec_correct : forall E a b, eq_dec E a b = true <-> TyEq E a b.
 Proof. exact eq_dec_correct. Qed.
 
@@ -51,6 +55,7 @@ Example C05_ex_memo_witness :
 Proof. intros E H. apply sub_dec_correct in H. vm_compute in H. discriminate. Qed.
 
 Print Assumptions C05_dec_correct.
+Print Assumptions C05_dec_fast_correct.
 Print Assumptions C05_eq_dec_correct.
 Print Assumptions C05_refl.
 Print Assumptions C05_eq_refl.
